@@ -1,6 +1,7 @@
-(* C09, multi-output plugins: when every output's computation is window-local and all outputs can be
-   cut at the same times (e.g. every output has one row per input row), each output delivered by
-   OverlapWindowPlugin.iter equals its computation over the whole run, and cache_beyond needs one pass. *)
+(* C09, multi-output plugins: when every output's computation is window-local and the cut sets of the
+   outputs are nested (of any two outputs one can be cut wherever the other can; in particular when all
+   outputs have one row per input row), each output delivered by OverlapWindowPlugin.iter equals its
+   computation over the whole run; cache_beyond needs at most two of its max_trials passes. *)
 From SV Require Import Model.Rows Model.SplitArray Model.Chunk Model.Overlap Spec.WindowLocal Spec.OverlapSpec.
 From SV Require Import Proof.RowsFacts Proof.OverlapChunkFacts Proof.OverlapLists Proof.OverlapBasic Proof.OverlapProof.
 
@@ -228,9 +229,10 @@ Section Multi.
   Hypothesis Hwr : 0 <= wr.
   Hypothesis Hmulti : (1 < length outs)%nat.
   Hypothesis HWLs : forall o, In o outs -> window_local (2 * wl) (2 * wr) (oo_f o).
-  (* all outputs can be cut at the same times *)
-  Hypothesis Hsame : forall o1 o2 I x, In o1 outs -> In o2 outs -> dsp I ->
-      (straddled (oo_f o1 I) x <-> straddled (oo_f o2 I) x).
+  (* the cut sets of the outputs are nested: of any two outputs, one can be cut wherever the other can *)
+  Hypothesis Hnested : forall o1 o2, In o1 outs -> In o2 outs ->
+      (forall I x, dsp I -> straddled (oo_f o1 I) x -> straddled (oo_f o2 I) x) \/
+      (forall I x, dsp I -> straddled (oo_f o2 I) x -> straddled (oo_f o1 I) x).
 
   Let P := mk_ow_params wtuple wl wr outs orun otgt sw.
 
@@ -249,6 +251,144 @@ Section Multi.
 
   Lemma multi_true : multi_output P = true.
   Proof. unfold multi_output, P. cbn [ow_outs]. apply Nat.ltb_lt. exact Hmulti. Qed.
+
+  (* ---- cache_beyond over the outputs: at most two passes when the cut sets are nested ---- *)
+  Lemma max_trials_two : exists k, Z.to_nat OVERLAP_MAX_TRIALS = Datatypes.S (Datatypes.S k).
+  Proof. eexists. vm_compute. reflexivity. Qed.
+
+  (* a most restrictive output: where it can be cut, every output can be cut *)
+  Lemma most_restrictive_exists :
+    exists m, In m outs /\ forall o I x, In o outs -> dsp I -> straddled (oo_f o I) x -> straddled (oo_f m I) x.
+  Proof.
+    assert (Hgen : forall l, incl l outs -> l <> [] ->
+              exists m, In m l /\ forall o I x, In o l -> dsp I -> straddled (oo_f o I) x -> straddled (oo_f m I) x).
+    { induction l as [|a l IH]; intros Hi Hne; [congruence|].
+      destruct l as [|b l'].
+      - exists a. split; [left; auto|]. intros o I x [<-|[]] _ H. exact H.
+      - destruct IH as (m & Hm & Hmax); [intros x Hx; apply Hi; right; exact Hx|discriminate|].
+        destruct (Hnested a m (Hi a (or_introl eq_refl)) (Hi m (or_intror Hm))) as [Ham|Hma].
+        + exists m. split; [right; exact Hm|]. intros o I x [<-|Ho] Hd H; [apply Ham; auto|apply (Hmax o I x Ho Hd H)].
+        + exists a. split; [left; auto|]. intros o I x [<-|Ho] Hd H; [exact H|]. apply Hma; [exact Hd|apply (Hmax o I x Ho Hd H)]. }
+    destruct (list_nonempty outs ltac:(lia)) as (o1 & orest & Eouts).
+    destruct (Hgen outs (incl_refl _)) as (m & Hm & Hmax); [rewrite Eouts; discriminate|].
+    exists m. split; auto.
+  Qed.
+
+  Lemma one_unique_const (cs : list chunk) x : cs <> [] -> Forall (fun c => cstart c = x) cs -> one_unique (map cstart cs) = true.
+  Proof.
+    destruct cs as [|c cs]; [congruence|]. intros _ H. inversion H; subst. cbn [map one_unique].
+    apply forallb_forall. intros y Hy. apply in_map_iff in Hy as (c' & <- & Hc').
+    rewrite Forall_forall in H3. rewrite (H3 c' Hc'). apply Z.eqb_refl.
+  Qed.
+
+  Lemma one_unique_eq (cs : list chunk) : one_unique (map cstart cs) = true ->
+    exists x, Forall (fun c => cstart c = x) cs.
+  Proof.
+    destruct cs as [|c cs]; cbn; [discriminate|]. intros H. exists (cstart c). constructor; [reflexivity|].
+    rewrite forallb_forall in H. apply Forall_forall. intros y Hy. apply Z.eqb_eq. apply H. apply in_map. exact Hy.
+  Qed.
+
+  Lemma cb_multi inp L T S :
+    wf inp -> R = L ++ crows inp ++ T -> cstart inp <= S <= cend inp ->
+    Forall (fun q => re q + 2 * wl < S) L ->
+    Forall (fun q => cend inp <= rt q) T ->
+    ((S = cstart inp /\ L = []) \/ S + 2 * wr + 1 <= cend inp) ->
+    (forall o, In o outs -> ~ straddled (oo_f o R) S) ->
+    forall ib, exists cs S',
+      cache_beyond (map (fun o => och o S (cend inp) (filter (fromb S) (oo_f o (crows inp)))) outs) ib = Ok (cs, S') /\
+      S <= S' /\ S' <= Z.max (Z.min ib (cend inp)) S /\
+      forall o, In o outs -> ~ straddled (oo_f o (crows inp)) S'.
+  Proof.
+    intros Hwf HRdec HS HL HT Hphase HnsR ib.
+    assert (HdI : dsp (crows inp)).
+    { rewrite HRdec in HR. apply dsp_app in HR as [_ HR']. apply dsp_app in HR' as [HR' _]. exact HR'. }
+    set (I := crows inp) in *. set (E := cend inp) in *.
+    set (g := fun o => och o S E (filter (fromb S) (oo_f o I))).
+    set (A := fun (o : ow_out) (p : Z) => ~ straddled (oo_f o I) p).
+    set (cl := fun p => Z.max (Z.min p E) S).
+    assert (Hcl : forall p, S <= cl p <= E) by (intros p; unfold cl; lia).
+    assert (Hclid : forall p, S <= p <= E -> cl p = p) by (intros p Hp; unfold cl; lia).
+    (* one early split *)
+    assert (Hearly : forall o p, In o outs -> exists c1 s,
+              chunk_split (g o) p true = Ok (c1, och o s E (filter (fromb s) (oo_f o I))) /\
+              S <= s /\ s <= cl p /\ A o s /\ (A o (cl p) -> s = cl p)).
+    { intros o p Ho.
+      destruct (oo_early (oo_f o) wl wr (HWLs o Ho) (oo_dt o) (oo_kind o) orun otgt R HR inp L T S
+                  Hwf HRdec HS HL HT Hphase (HnsR o Ho) p) as (s & Hsp & H1 & H2 & H3 & H4).
+      eexists _, s. split; [exact Hsp|]. repeat split; auto. }
+    (* one pass of the inner loop *)
+    assert (Hpass : forall l p, incl l outs ->
+              exists cs p', cb_pass (map g l) p = Ok (cs, p') /\
+                (l = [] -> cs = [] /\ p' = p) /\
+                (l <> [] -> cs <> [] /\ S <= p' /\ p' <= cl p /\ exists c, In c cs /\ cstart c = p') /\
+                Forall2 (fun o c => A o (cstart c)) l cs /\
+                (forall m, In m l -> (forall o x, In o outs -> A m x -> A o x) -> forall o, In o outs -> A o p') /\
+                ((forall o, In o l -> A o (cl p)) -> Forall (fun c => cstart c = cl p) cs /\ (l <> [] -> p' = cl p))).
+    { induction l as [|o l IH]; intros p Hi.
+      - exists [], p. cbn. repeat split; auto; try congruence.
+      - destruct (Hearly o p (Hi o (or_introl eq_refl))) as (c1 & s & Hsp & Hs1 & Hs2 & HAs & Hseq).
+        destruct (IH s (fun x Hx => Hi x (or_intror Hx))) as (cs & p' & Hcp & Hnil & Hcons & HF2 & Hmax & Hall).
+        assert (Hcls : cl s = s) by (apply Hclid; specialize (Hcl p); lia).
+        exists (och o s E (filter (fromb s) (oo_f o I)) :: cs), p'.
+        split; [cbn [map cb_pass]; rewrite Hsp; cbn [res_bind cstart och]; rewrite Hcp; reflexivity|].
+        split; [congruence|].
+        split.
+        { intros _. split; [discriminate|]. destruct l as [|o2 l'].
+          - destruct (Hnil eq_refl) as [-> ->]. repeat split; try lia. eexists. split; [left; reflexivity|reflexivity].
+          - destruct (Hcons ltac:(discriminate)) as (_ & Hp1 & Hp2 & c & Hc & Hcp').
+            rewrite Hcls in Hp2. repeat split; try lia. exists c. split; [right; exact Hc|exact Hcp']. }
+        split; [constructor; [exact HAs|exact HF2]|].
+        split.
+        { intros m [<-|Hm] Hmm o' Ho'.
+          - (* the most restrictive output is the head: everything after it stays at s *)
+            assert (Hall_s : forall o2, In o2 l -> A o2 (cl s)).
+            { intros o2 Ho2. rewrite Hcls. apply (Hmm o2 s (Hi o2 (or_intror Ho2)) HAs). }
+            destruct (Hall Hall_s) as [_ Hp'].
+            destruct l as [|o2 l'].
+            + destruct (Hnil eq_refl) as [_ ->]. apply (Hmm o' s Ho' HAs).
+            + rewrite (Hp' ltac:(discriminate)), Hcls. apply (Hmm o' s Ho' HAs).
+          - apply (Hmax m Hm Hmm o' Ho'). }
+        intros HallA.
+        assert (Es : s = cl p) by (apply Hseq; apply HallA; left; reflexivity).
+        assert (Hall_s : forall o2, In o2 l -> A o2 (cl s)).
+        { intros o2 Ho2. rewrite Hcls, Es. apply HallA. right; exact Ho2. }
+        destruct (Hall Hall_s) as [HF Hp'].
+        split.
+        + constructor; [cbn; exact Es|]. eapply Forall_impl; [|exact HF]. cbn beta. intros c Hc. rewrite Hc, Hcls. exact Es.
+        + intros _. destruct l as [|o2 l'].
+          * destruct (Hnil eq_refl) as [_ ->]. exact Es.
+          * rewrite (Hp' ltac:(discriminate)), Hcls. exact Es. }
+    destruct (list_nonempty outs ltac:(lia)) as (o1 & orest & Eouts).
+    assert (Hne : outs <> []) by (rewrite Eouts; discriminate).
+    destruct most_restrictive_exists as (m & Hm & Hmost).
+    assert (Hmm : forall o x, In o outs -> A m x -> A o x).
+    { intros o x Ho HA Hst. apply HA. apply (Hmost o I x Ho HdI Hst). }
+    destruct max_trials_two as [k Hk]. unfold cache_beyond. rewrite Hk. cbn [cb_loop].
+    destruct (Hpass outs ib (incl_refl _)) as (cs1 & p1 & Hcp1 & _ & Hcons1 & HF1 & Hmax1 & _).
+    destruct (Hcons1 Hne) as (Hcs1 & Hp1a & Hp1b & c1 & Hc1 & Hc1p).
+    fold g. rewrite Hcp1. cbn [res_bind].
+    destruct (one_unique (map cstart cs1)) eqn:Eu.
+    - (* settled in the first pass *)
+      exists cs1, p1. split; [reflexivity|]. split; [exact Hp1a|]. split; [exact Hp1b|].
+      destruct (one_unique_eq cs1 Eu) as [x Hx].
+      assert (Exp : x = p1) by (rewrite <- Hc1p; symmetry; exact (proj1 (Forall_forall _ _) Hx c1 Hc1)).
+      subst x.
+      assert (Hgen : forall l cs, Forall2 (fun o c => A o (cstart c)) l cs -> Forall (fun c => cstart c = p1) cs ->
+                forall o, In o l -> A o p1).
+      { induction l as [|a l IH]; intros cs HF Hxx o Ho; [destruct Ho|].
+        inversion HF as [|? c ? cs' Hac HF']; subst. inversion Hxx as [|? ? Hcx Hx']; subst.
+        destruct Ho as [<-|Ho]; [rewrite <- Hcx; exact Hac|]. apply (IH cs' HF' Hx' o Ho). }
+      apply (Hgen outs cs1 HF1 Hx).
+    - (* second pass: p1 is admissible for every output *)
+      assert (HallA : forall o, In o outs -> A o (cl p1)).
+      { intros o Ho. rewrite (Hclid p1) by (specialize (Hcl ib); lia). apply (Hmax1 m Hm Hmm o Ho). }
+      destruct (Hpass outs p1 (incl_refl _)) as (cs2 & p2 & Hcp2 & _ & Hcons2 & _ & _ & Hall2).
+      destruct (Hall2 HallA) as [HF2 Hp2]. destruct (Hcons2 Hne) as (Hcs2 & _).
+      rewrite Hcp2. cbn [res_bind]. rewrite (one_unique_const cs2 (cl p1) Hcs2 HF2).
+      assert (Ep2 : p2 = p1) by (rewrite (Hp2 Hne); apply Hclid; specialize (Hcl ib); lia).
+      exists cs2, p2. rewrite Ep2. split; [reflexivity|]. split; [exact Hp1a|]. split; [exact Hp1b|].
+      intros o Ho. apply (Hmax1 m Hm Hmm o Ho).
+  Qed.
 
   Lemma compute_core_multi inp S0 L T :
     wf inp -> R = L ++ crows inp ++ T ->
@@ -280,15 +420,10 @@ Section Multi.
     { eapply Forall_impl; [|apply dsp_pos; exact HdI]. unfold pos_row. intros; lia. }
     set (I := crows inp) in *.
     destruct (list_nonempty outs ltac:(lia)) as (o1 & orest & Eouts).
-    assert (Ho1 : In o1 outs) by (rewrite Eouts; left; reflexivity).
     set (ib := cend inp - 2 * wr - 1).
-    (* the first output decides the split time *)
-    destruct (oo_early (oo_f o1) wl wr (HWLs o1 Ho1) (oo_dt o1) (oo_kind o1) orun otgt R HR inp L T S
-                Hwf HRdec HS HL HT Hphase (HnsR o1 Ho1) ib)
-      as (S' & Hsp1 & HSS & HSle & Hns1 & _).
-    fold I in Hsp1, Hns1.
-    assert (HnsI' : forall o, In o outs -> ~ straddled (oo_f o I) S').
-    { intros o Ho Hst. apply Hns1. apply (Hsame o o1 I S' Ho Ho1 HdI). exact Hst. }
+    (* cache_beyond decides the split time *)
+    destruct (cb_multi inp L T S Hwf HRdec HS HL HT Hphase HnsR ib) as (cs0 & S' & Hcb1 & HSS & HSle & HnsI').
+    fold I in Hcb1, HnsI'.
     assert (Hphase' : (S' = S /\ S = cstart inp /\ L = []) \/ S' + 2 * wr + 1 <= cend inp).
     { destruct (Z_le_gt_dec S ib) as [Hle|Hgt].
       - right. unfold ib in *. lia.
@@ -338,20 +473,6 @@ Section Multi.
                       Hwf HRdec HL HT Hphase (HnsR o Ho) S0 HSdef) as (l1 & Hs).
           fold I in Hs. unfold och. rewrite Hs. reflexivity. }
       cbn [res_bind]. rewrite multi_true.
-      (* cache_beyond over the results: one pass *)
-      assert (Hcb1 : cache_beyond (map (fun o => och o S (cend inp) (filter (fromb S) (oo_f o I))) outs) ib =
-                     Ok (map (fun o => och o S' (cend inp) (filter (fromb S') (oo_f o I))) outs, S')).
-      { destruct max_trials_pos as [k Hk]. unfold cache_beyond. rewrite Hk. cbn [cb_loop].
-        rewrite Eouts. cbn [map cb_pass]. unfold och at 1. rewrite Hsp1. cbn [res_bind cstart].
-        rewrite (cb_pass_fixed (fun o => och o S (cend inp) (filter (fromb S) (oo_f o I)))
-                   (fun o => och o S' (cend inp) (filter (fromb S') (oo_f o I))) S' orest).
-        2:{ intros o Ho. eexists. split; [apply Hsplit; rewrite Eouts; right; exact Ho|reflexivity]. }
-        cbn [res_bind map one_unique cstart].
-        assert (Hu : forallb (fun y => y =? S')
-                       (map cstart (map (fun o => och o S' (cend inp) (filter (fromb S') (oo_f o I))) orest)) = true).
-        { apply forallb_forall. intros y Hy. apply in_map_iff in Hy as (c & <- & Hc).
-          apply in_map_iff in Hc as (o & <- & _). cbn. apply Z.eqb_refl. }
-        rewrite Hu. reflexivity. }
       fold ib. rewrite Hcb1. cbn [res_bind].
       (* the final splits at prev_split *)
       rewrite (map_res_map (fun o => och o S (cend inp) (filter (fromb S) (oo_f o I)))
@@ -565,7 +686,7 @@ Proof. intros H. rewrite nth_error_map, H. reflexivity. Qed.
 
 Theorem overlap_multi_correct wtuple wl wr ml mr outs orun otgt sw R a b dt run cs :
   0 <= wl -> 0 <= wr -> ml <= 2 * wl -> mr <= 2 * wr -> (1 < length outs)%nat ->
-  (forall o, In o outs -> window_local ml mr (oo_f o)) -> same_cuts (map oo_f outs) ->
+  (forall o, In o outs -> window_local ml mr (oo_f o)) -> nested_cuts (map oo_f outs) ->
   dsp R -> chunking_of R a b dt run cs ->
   exists items,
     ow_iter (mk_ow_params wtuple wl wr outs orun otgt sw) cs = Ok items /\
@@ -577,9 +698,10 @@ Proof.
   intros Hwl Hwr Hml Hmr Hn HWL0 Hsame0 HR (Hne & Hcont & Hlast & Hwf & Hmeta & Hrows).
   assert (HWLs : forall o, In o outs -> window_local (2 * wl) (2 * wr) (oo_f o)).
   { intros o Ho. eapply window_local_mono; [exact Hml|exact Hmr|]. apply HWL0. exact Ho. }
-  assert (Hsame : forall o1 o2 I x, In o1 outs -> In o2 outs -> dsp I ->
-            (straddled (oo_f o1 I) x <-> straddled (oo_f o2 I) x)).
-  { intros o1 o2 I x H1 H2 Hd. apply Hsame0; auto; apply in_map; auto. }
+  assert (Hsame : forall o1 o2, In o1 outs -> In o2 outs ->
+            (forall I x, dsp I -> straddled (oo_f o1 I) x -> straddled (oo_f o2 I) x) \/
+            (forall I x, dsp I -> straddled (oo_f o2 I) x -> straddled (oo_f o1 I) x)).
+  { intros o1 o2 H1 H2. apply Hsame0; apply in_map; auto. }
   destruct cs as [|c rest]; [congruence|]. clear Hne.
   destruct Hcont as [Hca Hcont]. inversion Hwf as [|? ? Hwc Hwrest]; subst.
   inversion Hmeta as [|? ? [Hdt Hrun] Hmeta']; subst.
@@ -620,3 +742,6 @@ Proof.
     cbn [map fst snd contiguous_from last_end cstart cend och].
     split; [split; [reflexivity|exact I1]|]. split; [exact I2|]. constructor; [apply Hw; exact Ho|exact I3].
 Qed.
+
+Lemma same_cuts_nested fs : same_cuts fs -> nested_cuts fs.
+Proof. intros H f1 f2 H1 H2. left. intros I x Hd Hs. apply (H f1 f2 I x H1 H2 Hd). exact Hs. Qed.
